@@ -16,12 +16,13 @@ V = MOD + '/version.'
 ROOTS = [V + n for n in ('verrevcmp', 'VerifC01Rev', 'VerifSpecCmp', 'VerifCompare', 'VerifC01Compare', 'VerifC01Less', 'VerifLess', 'VerifC01Parsed')]
 ALPH = b'ABCDEFGHIJKLMNOPQRSTUVWXYZabcdefghijklmnopqrstuvwxyz0123456789.+~:-'
 DIGITS_DOT = b'0123456789.~a'
-BOUNDS = {'quick': dict(N=4, Nu=2, Nr=1), 'thorough': dict(N=6, Nu=3, Nr=2)}
+BOUNDS = {'quick': dict(N=5, Nu=2, Nr=1), 'thorough': dict(N=6, Nu=3, Nr=2)}
+JOB_TIMEOUT_S = {'quick': 900, 'thorough': 7200}     # rev_5_5 takes 75 s of CPU on the unchanged tree; a table-driven rewrite of order() took 4x that
 META = dict(
     functions_encoded=['version.order', 'version.cisdigit', 'version.cisalpha', 'version.verrevcmp', 'version.Compare',
                        'version.Slice.Len', 'version.Slice.Less', 'version.Parse/parseInto (concrete instances only)'],
     stubs=[],
-    bounds={'quick': 'verrevcmp: all pairs of strings over [A-Za-z0-9.+~:-] with |a|,|b| <= 4, plus shared 3-6 character contexts (1.0~rc, 2.10+b, 0.7a-, 1~~) followed by symbolic tails of up to 2 characters over the whole alphabet, plus digit runs beyond 64 bits: a 19-, 20- or 40-digit concrete string shared as prefix (or suffix) with symbolic tails (heads) of up to 2 characters over [0-9.~a]; Compare/Less: any 64-bit epochs, upstream <= 2, revision <= 1 bytes per side',
+    bounds={'quick': 'verrevcmp: all pairs of strings over [A-Za-z0-9.+~:-] with |a|,|b| <= 5, plus shared 3-6 character contexts (1.0~rc, 2.10+b, 0.7a-, 1~~) followed by symbolic tails of up to 2 characters over the whole alphabet, plus digit runs beyond 64 bits: a 19-, 20- or 40-digit concrete string shared as prefix (or suffix) with symbolic tails (heads) of up to 2 characters over [0-9.~a]; Compare/Less: any 64-bit epochs, upstream <= 2, revision <= 1 bytes per side',
             'thorough': 'verrevcmp: |a|,|b| <= 6 (plus the long-digit-run families); Compare/Less: any 64-bit epochs, upstream <= 3, revision <= 2'},
     outside_claim=['strings longer than the bound', 'characters outside [A-Za-z0-9.+~:-] (the parser admits no others)'],
     assumptions=['oracle: the Policy 5.6.12 / dpkg verrevcmp algorithm written as SMT terms (checks/specs.py, formulation S2) and, for replay, as Go (harness specCmp); the two are compared on the validation inputs'])
@@ -59,12 +60,25 @@ CONTEXTS = [b'1.0~rc', b'2.10+b', b'0.7a-', b'1~~', b'3:1.02.', b'10.010', b'a.+
 
 
 def run_job(env, job):
+    # Regime: every obligation is first decided in the enumerating regime (one path per outcome of the symbolic
+    # branches, single-byte conditions settled by the domain tracker) - measured faster than the merged regime on this
+    # code (rev_4_4: 14 s against 60 s) and indifferent to how the loops are written; if the enumeration meets an
+    # instruction it cannot fork on, the merged regime is used instead.
+    if 'enum' not in job and job['kind'] != 'canary':
+        try:
+            r = run_job(env, dict(job, enum=True))
+            r['samples'][0]['regime'] = 'enumerating'
+            return r
+        except Unsupported as e:
+            r = run_job(env, dict(job, enum=False))
+            r['samples'][0]['regime'] = 'merged (enumerating regime: %s)' % str(e)[:200]
+            return r
     if job['kind'] == 'canary':
         # vacuity guard: against a deliberately wrong oracle ('~' weighted like other punctuation) the same query
         # must come back sat - otherwise the harness or the assumptions make the obligation vacuous
         specs.CANARY = True
         try:
-            r = run_job(env, dict(job, kind='rev'))
+            r = run_job(env, dict(job, kind='rev', enum=True))
         finally:
             specs.CANARY = False
         if not r['cex']:
@@ -77,7 +91,7 @@ def run_job(env, job):
         if job['kind'] == 'long':
             fx = mkstr(job['fixed'])
             a, b = (Str(fx + a), Str(fx + b)) if job['where'] == 'prefix' else (Str(a + fx), Str(b + fx))
-        I, ctx = env.interp(merge=True, unwind=4 * max(len(a), len(b)) + 8, timeout_ms=900000)
+        I, ctx = env.interp(merge=not job.get("enum"), unwind=4 * max(len(a), len(b)) + 8, timeout_ms=900000 if env.tier == "quick" else 3000000)
         for c in list(sa) + list(sb):
             ctx.assume(in_set(c, ALPH if (job['kind'] == 'rev' or job.get('alph') == 'full') else DIGITS_DOT))
         outs = I.call(V + 'verrevcmp', [a, b], I.new_state())
@@ -107,7 +121,7 @@ def run_job(env, job):
                     samples=[dict(obligation='forall a in S^%d, b in S^%d%s: sign(verrevcmp(a,b)) == dpkg_spec(a,b), no panic, loops within %d iterations' % (la, lb, (' around the shared %s %r' % (job['where'], job['fixed'].decode())) if job['kind'] == 'long' else '', I.unwind), result='sat (counterexample)' if cex else 'unsat', cross_checked=cross)],
                     stats=dict(I.stats, **ctx.stats, solver_time=ctx.solver_time))
     ua, ra, ub, rb = job['lens']
-    I, ctx = env.interp(merge=True, unwind=4 * max(job['lens']) + 8, timeout_ms=900000)
+    I, ctx = env.interp(merge=not job.get('enum'), unwind=4 * max(job['lens']) + 8, timeout_ms=900000 if env.tier == "quick" else 3000000)
     sa, sra, sb, srb = symstr('ua', ua), symstr('ra', ra), symstr('ub', ub), symstr('rb', rb)
     for c in list(sa) + list(sra) + list(sb) + list(srb):
         ctx.assume(in_set(c, ALPH))
